@@ -5,13 +5,13 @@ package main
 // extracted byte-level model.
 
 import (
-	"runtime"
 	"bytes"
 	"fmt"
 	"image"
 	"image/color"
 	"image/draw"
 	"math/rand"
+	"runtime"
 	"strings"
 
 	"github.com/mandykoh/prism/adobergb"
